@@ -40,6 +40,8 @@ func main() {
 		cmdXdr(fs, os.Args[2:])
 	case "dispatch":
 		cmdDispatch(fs, os.Args[2:])
+	case "seq":
+		cmdSeq(fs, os.Args[2:])
 	default:
 		fmt.Fprintf(os.Stderr, "harness: unknown subcommand %q\n", sub)
 		os.Exit(2)
